@@ -2,7 +2,7 @@
 # usage: tools/eval_seed.sh <ID-mN> [check-ID...]   — apply seeded/<ID-mN>/patch.diff to /repo, run the quick check(s), undo, record in meta.json
 set -u
 name=$1; shift; dst=/verif/seeded/$name
-checks=${*:-${name%%-*}}
+base=${name%%-*}; checks=${*:-${base%%r[0-9]*}}
 for c in $checks; do
   out=$(/verif/tools/try_patch.sh $dst/patch.diff $c quick 2>&1)
   echo "--- $name check $c"; echo "$out" | grep -E "signature|exit=|PATCH" | head -4
